@@ -318,6 +318,26 @@ def oracle(ctx):
                 fail = f'PodmanArgs must sit directly before the object (image or --rootfs) at {obj}: --pa at {na.index("--pa")}'
         if fail:
             res.oracle_failures.append(dict(op=op, input=text, impl_output=str(na), oracle_expectation=fail))
+    # list keys whose items carry options of their own: every item is rendered from its own text, in order (nothing of one item reaches the next)
+    mcases = []
+    for ty in ('container', 'pod', 'kube', 'build'):
+        for key, flag, pool in (('Network', '--network', ['front:ip=10.89.0.5', 'back', 'mid:alias=db,mac=92:d0:c6:0a:29:33', 'host', 'side']),
+                                ('Volume', '-v', ['a:/x:ro', 'b:/y', '/host/p:/c:Z,U', 'named:/n']),
+                                ('PublishPort', '--publish', ['8080:80', '9090:90/udp', '127.0.0.1:53:53', '7000'])):
+            if key not in ctx.tables['supported'][G.SUP[ty]]:
+                continue
+            for _ in range(6 if ctx.thorough else 2):
+                items = [rnd.choice(pool) for _ in range(rnd.randint(2, 4))]
+                mcases.append((ty, key, flag, items))
+    mops = [f'convert\t0\t0\t{hx("/q/m." + ty)}\t{hx("[" + G.SEC[ty] + "]" + chr(10) + "".join(b + chr(10) for b in G.BASE[ty]) + "".join(f"{key}={it}" + chr(10) for it in items))}' for ty, key, flag, items in mcases]
+    for (ty, key, flag, items), op, av in zip(mcases, mops, argv(ctx, ctx.impl(mops))):
+        if av is None:
+            continue
+        res.oracle_evals += 1
+        got = [av[i + 1] for i in range(len(av) - 1) if av[i] == flag]
+        if got != items:
+            res.oracle_failures.append(dict(op=op, input=dict(unit_type=ty, assignments=[f'{key}={it}' for it in items]), impl_output=str(got),
+                                            oracle_expectation=f'{flag} once per item, in order, each with exactly its own text: {items}'))
     # keys whose option names an object that another unit of the run creates: the option is the same in whichever order the two files are
     # found (the real binary, the two units in two search directories, both orders)
     import e2e, re as _re
